@@ -153,7 +153,8 @@ def _shard_mixed(item, out):
             for f in td.fields:
                 n += 1
                 per["%s.%s" % (td.name, f.name)] = {"parent_concurrently": n % 2 == 0, "list_concurrently": n % 3 != 0}
-    engine = explore.engine_for("K-mixed", schema, typecfg={"resolver_kwargs": per})
+    # ... built from the schema written with `extend` blocks, through Engine() + cook()
+    engine = explore.engine_for("K-mixed", schema, typecfg={"resolver_kwargs": per}, layout="extend", route="cook")
     roots = {}
     for d, level, trail, stats in explore.bfs(schema, doc.parse(_seed_text(si)), 1):
         text = run_cases(schema, engine, d, trail + ("mixed-concurrency",), VARIANTS[tier][:1], out, roots=roots)
